@@ -59,6 +59,8 @@ E = {
     'pp-nostart': ('P', 'PRE_PROCESS_ERROR', {'pp': 'ppmissing'}),
     'pp-ok': ('ok', None, {'pp': 'ppok'}),
     # the default suite file beside the case cannot be read as a suite: prevents execution like a syntax error of the case
+    # the test-case file is not text: an unreadable input, not an error of the implementation
+    'case-not-utf8': ('P', 'FILE_ACCESS_ERROR', {'bytes': b'[act]\n% atc \xff\xfe\n'}),
     'suite-syntax': ('P', 'SYNTAX_ERROR', {'suite': '[conf]\nno-such-conf-instruction x\n'}),
     'suite-unknown-section': ('P', 'SYNTAX_ERROR', {'suite': '[no-such-section]\nx\n'}),
     'suite-case-instr-syntax': ('P', 'SYNTAX_ERROR', {'suite': '[setup]\ndef nosuchtype X = 1\n'}),
@@ -98,7 +100,7 @@ def cases(tier):
 
 def case_text(status, ending, code):
     cls, ident, lines = E[ending]
-    ph = {k: [l.replace('{N}', str(code)) for l in v] for k, v in lines.items() if k not in ('pp', 'suite')}
+    ph = {k: [l.replace('{N}', str(code)) for l in v] for k, v in lines.items() if k not in ('pp', 'suite', 'bytes')}
     out = []
     out.append('[conf]')
     if status is not None:
@@ -197,7 +199,13 @@ def run(case) -> Result:
         args.append('--act')
     if E[ending][2].get('suite'):
         w.write('exactly.suite', E[ending][2]['suite'])
-    o = cli.run_case(text if not pp else 'not a test case [\n', args=args, mp=mp, real_files=(mode == 'act'))
+    if E[ending][2].get('bytes'):
+        p_ = w.write('c.case', '')
+        with open(p_, 'wb') as f_:
+            f_.write(E[ending][2]['bytes'])
+        o = cli.run(args + [str(p_)], mp=mp, real_files=(mode == 'act'))
+    else:
+        o = cli.run_case(text if not pp else 'not a test case [\n', args=args, mp=mp, real_files=(mode == 'act'))
     errs = []
     if o.exc:
         errs.append('exception escaped / hang: %s' % o.exc)
